@@ -74,7 +74,7 @@ Definition tokenizer_options_are_read_from_the_public_attribute_at_call_time : b
 (** Example for [Props/C02.c02_property_as_written]: the objects generated from today's source satisfy every one of its
     hypotheses (default options, both modes) - the theorem is not vacuous for the code it is about. *)
 Definition c02_property_hypotheses_hold_for_todays_source : bool :=
-  allow_escapes default_opts
+  allow_escapes default_opts && SV.Gen.EscTables_gen.esc_pipeline_translated && escape_text_uses_no_state_outliving_the_call
   && forallb (fun ml => match single_sub gen_pipeline ml with Some e => nl_eqb e (excl gen_tables ml) | None => false end
                         && tbl_ok gen_tables ml) [false; true]
   && dq_not_operator gen_tables && trees_ok gen_trees && hs_rows_ok gen_hs_rows.
